@@ -20,6 +20,7 @@ enum GrammarFault {
         GF_LEN_SYM_286,    // literal/length symbol 286 or 287 (fixed block)   -> invalid symbol
         GF_DIST_SYM_30,    // distance symbol 30 or 31 (fixed block)           -> invalid symbol
         GF_DIST_TOO_FAR,   // distance one past the bytes produced             -> invalid look-back
+        GF_UNASSIGNED_DIST,// a distance code word that no symbol owns (incomplete distance set, code lengths up to 15) -> invalid symbol
         GF_NKINDS
 };
 const char *grammar_fault_name(int k);
